@@ -16,6 +16,7 @@ def run(ctx):
     ctx.rule("R04.4", "previous_run only ever receives reset()'s return value, and reset() builds only Pending/Finished")
     ctx.rule("R04.6", "one job per Id in the library: the action worker's job map loses an entry only when that job is dead (or on a graceful quit), so "
                       "get_or_create_job(id) cannot create a second job - and a second process - next to a live one (shared with C05 R05.8)")
+    ctx.also("R04.6", "get_or_create_job creates a job only when the Id has none in the handler's snapshot, which Handler only reads")
     ctx.rule("R04.5", "every path of Command::to_spawnable applies KillOnDrop; CommandState is not Clone outside tests")
     for fn in (jobrules.single_creator, jobrules.spawn_guard, jobrules.wait_summary, jobrules.kill_on_drop):
         try:
